@@ -33,7 +33,7 @@ LEVEL_TEXT = ("Fault-free configuration of the simulator: seeded call "
 
 
 def plan(rng, tier):
-    cfg = common.draw_cfg(rng)
+    cfg = common.draw_cfg(rng, p_sub=0.08)
     dom = Domain(cfg["dom"])
     g = common.Gen(rng, dom, cfg["kind"])
     g.p_bad = 0.03
